@@ -82,8 +82,8 @@ End RangeRule.
 
 (* ---------- write sets of the getline forms ---------- *)
 
-Lemma store_frame tg r l s s' :
-  store tg r l s = Some s' ->
+Lemma store_frame e tg r l s s' :
+  store e tg r l s = Some s' ->
   NR s' = NR s /\ FNR s' = FNR s /\ FILENAME s' = FILENAME s /\ idx s' = idx s /\ cur s' = cur s /\
   argv s' = argv s /\ argc s' = argc s /\ had s' = had s /\ stdin s' = stdin s /\ status s' = status s /\ out s' = out s.
 Proof.
@@ -169,6 +169,10 @@ Proof.
   unfold store in HS. destruct (r =? 1); injection HS as <-; sst; split; assumption.
 Qed.
 
+Lemma getline_var_frame_mode (m : option Z) fs cmds globals nav sr v s s' :
+  do_getline (mkEnv fs cmds globals nav m) sr (TVar v) s = Some s' -> line s' = line s /\ fields s' = fields s.
+Proof. apply getline_var_frame. Qed.
+
 (* what a successful getline var stores *)
 Lemma getline_var_value e sr v s s' :
   do_getline e sr (TVar v) s = Some s' -> ret s' = 1 ->
@@ -187,7 +191,7 @@ Lemma getline_main_line e s name r rest :
   cur s = Some (name, r :: rest) ->
   exists s', do_getline e SMain TLine s = Some s' /\ ret s' = 1 /\
     NR s' = NR s + 1 /\ FNR s' = FNR s + 1 /\ FILENAME s' = FILENAME s /\
-    line s' = r /\ fields s' = split_ws r /\ vars s' = vars s /\ cur s' = Some (name, rest).
+    line s' = r /\ fields s' = split_mode e r /\ vars s' = vars s /\ cur s' = Some (name, rest).
 Proof.
   intros Hc. unfold do_getline. cbn [rd_read]. unfold next_line. rewrite Hc. unfold deliver.
   eexists. split; [reflexivity|]. sst. repeat split; reflexivity.
@@ -348,7 +352,7 @@ Section Control.
     | (NLEof, s1) => LCont u s1 flags
     | (NLErr, s1) => LStop OErr u s1
     | (NLRec r, s1) =>
-        match exec_rules U step enter e fuel rules 0 [] flags u (set_line r s1) with
+        match exec_rules U step enter e fuel rules 0 [] flags u (set_line e r s1) with
         | LCont u' s' flags' => main_loop U step enter e fuel n rules flags' u' s'
         | x => x
         end
@@ -362,7 +366,7 @@ Section Control.
   | lr_refl x : loop_reaches fuel rules x x
   | lr_step u s fl r s1 u' s' fl' x :
       next_line e s = (NLRec r, s1) ->
-      exec_rules U step enter e fuel rules 0 [] fl u (set_line r s1) = LCont u' s' fl' ->
+      exec_rules U step enter e fuel rules 0 [] fl u (set_line e r s1) = LCont u' s' fl' ->
       loop_reaches fuel rules (u', s', fl') x -> loop_reaches fuel rules (u, s, fl) x.
 
   (* when the input is exhausted, $0 and the fields are those left by the processing of the last
@@ -376,7 +380,7 @@ Section Control.
     rewrite main_loop_unfold in H.
     destruct (next_line e s) as [res s1] eqn:HN.
     destruct res as [r| | | |]; try discriminate.
-    - destruct (exec_rules U step enter e fuel rules 0 [] flags u (set_line r s1)) as [| |u2 s2 fl2|o u2 s2] eqn:HE; try discriminate.
+    - destruct (exec_rules U step enter e fuel rules 0 [] flags u (set_line e r s1)) as [| |u2 s2 fl2|o u2 s2] eqn:HE; try discriminate.
       apply IH in H as (s0 & HL & HN0 & H1 & H2). exists s0. split; [|tauto].
       eapply lr_step; eassumption.
     - injection H as <- <- <-. exists s. split; [apply lr_refl|].
